@@ -22,7 +22,16 @@ func c13Config() *config.Config {
 	return cfg
 }
 
+// c13Known names the recorded finding (and whether the current program lies in its region) for the next c13Check
+var c13Known string
+var c13InRegion bool
+
+func c13StringData() {
+	df.VerifFlowStringData = verifPick("string-data", 0, 1) == 1
+}
+
 func c13Check(w *df.VerifFlowWorld) {
+	df.VerifFlowStringData = false
 	verifOneSchedule(true) // the analyzer's own worker goroutines: one schedule (their schedules are the subject of C06/C20)
 	verifTerminatesWithin("taint-analysis-terminates", 150000000)
 	res, err := Analyze(c13Config(), w.Prog, nil)
@@ -53,10 +62,12 @@ func c13Check(w *df.VerifFlowWorld) {
 		verifReach("escape-reported")
 	}
 	_ = err
-	verifAssert("observable-flow-through-shared-memory-is-reported-as-flow-or-escape", flow || escape)
+	verifAssertKnown("observable-flow-through-shared-memory-is-reported-as-flow-or-escape", c13Known, c13InRegion, flow || escape)
+	c13Known, c13InRegion = "", false
 }
 
 func Harness_C13_shared_cell() {
+	c13StringData()
 	share := verifPick("share", 0, 4)
 	first := verifPick("share-before-store", 0, 1) == 1
 	storeForm := verifPick("store-form", 0, 3)
@@ -66,6 +77,7 @@ func Harness_C13_shared_cell() {
 
 // the source's value travels through a transport before it is stored into the shared cell
 func Harness_C13_data_through_transport() {
+	c13StringData()
 	t := verifPick("transport", 0, df.VerifNumTransports-1)
 	variant := verifPick("variant", 0, 1)
 	first := verifPick("share-before-store", 0, 1) == 1
@@ -73,12 +85,19 @@ func Harness_C13_data_through_transport() {
 	if verifTier() > 0 {
 		share = verifPick("share", 0, 4)
 	}
+	// non-pointer data bound by value in a closure that is called directly makes the escape analysis panic
+	// (pending confirmation, DESIGN §5 D18): outside the claim until triaged
+	verifAssume(!(df.VerifFlowStringData && df.VerifByValueClosure(t)))
+	// non-pointer data that comes back from a callee and is then stored into already-shared memory: recorded
+	// finding KF-C13-escape-after-call
+	c13Known, c13InRegion = "KF-C13-escape-after-call", df.VerifFlowStringData && first && df.VerifTransportThroughCall(t)
 	w := df.VerifBuildFlowProgram(share, first, t, variant, 0, -1, 0)
 	c13Check(w)
 }
 
 // the address of the shared cell travels through a transport before main writes the source's value through it
 func Harness_C13_cell_through_transport() {
+	c13StringData()
 	t := verifPick("transport", 0, df.VerifNumTransports-1)
 	variant := verifPick("variant", 0, 1)
 	first := verifPick("share-before-store", 0, 1) == 1
